@@ -384,4 +384,5 @@ PROP = {
 SPECS["Proportion"] = PROP
 
 # instance-independent models (over lib/PyVal): (name, translator module, source file)
-PLAIN = [("Utils", "utils2coq", "utils.py"), ("ExperimentPairs", "exp2coq", "experiment.py")]
+PLAIN = [("Utils", "utils2coq", "utils.py"), ("ExperimentPairs", "exp2coq", "experiment.py"),
+         ("Resampling", "gran2coq", "metrics/resampling.py")]
